@@ -168,6 +168,7 @@ def analyse(p, pr, r1, r6):
         if handle in f.params:
             if opens:
                 raise AnalysisError(f"{f.qual}: reads a parameter and opens files itself")
+            per_caller = {}
             for cf, call in callers_of(p, f.qual):
                 b = p.bind_args(f, call)
                 a = b.get(handle)
@@ -175,6 +176,21 @@ def analyse(p, pr, r1, r6):
                 if len(srcs) != 1:
                     raise AnalysisError(f"{cf.loc(call)}: the file handle given to {f.name} is not the result of one open() in the caller")
                 check_open_mode(p, r1, cf, srcs[0])
+                per_caller.setdefault((cf.qual, norm(a)), []).append((cf, call))
+            # one open handle is read from its start once: a second pass over the same handle begins at the end of the file
+            for (cq, hname), calls_ in per_caller.items():
+                if len(calls_) < 2:
+                    continue
+                cf = calls_[0][0]
+                gc = cfg_of(cf)
+                rewinds = {gc.node_for(c).id for c, tg in p.calls[cf.qual] if isinstance(c.func, ast.Attribute) and c.func.attr == "seek" and norm(c.func.value) == hname and c.args and p.fold(c.args[0], cf) == 0}
+                for _, c1 in calls_:
+                    for _, c2 in calls_:
+                        if c1 is c2:
+                            continue
+                        pth = gc.find_path(gc.node_for(c1), {gc.node_for(c2).id}, avoid=rewinds)
+                        if pth is not None:
+                            r1.check(False, cf, c2, f"`{norm(c2)[:60]}` reads the handle `{hname}` a second time (first at line {c1.lineno}) without reopening the file or `{hname}.seek(0)`: the second pass starts at the end of the file and returns the digest of the empty input - whatever was read first is discarded in favour of it", construct=f"handle {hname} read twice without rewind")
         else:
             if not opens:
                 raise AnalysisError(f"{f.qual}: no open() for the handle `{handle}`")
